@@ -200,6 +200,45 @@ theorem coplanar_accepted (P Q : Plane) (hP : P.Valid) (hQ : Q.Valid) (hn : P.nr
   simp only [pixToPix, pixToPixAffine, ofList_posL, ofList_oriL, hcop, hfwd, hinv, bind, Except.bind, pure, Except.pure]
   exact ⟨_, rfl⟩
 
+/-- **coplanar ⇒ the dropped slice index is zero**: for exactly coplanar valid planes the reference point of any
+source pixel lands IN the target plane (slice coordinate 0), so `PixelToPixelTransformer`, which drops that
+coordinate, loses nothing; its two outputs are the in-plane indices of that point. -/
+theorem coplanar_slice_index_zero (P Q : Plane) (hP : P.Valid) (hQ : Q.Valid)
+    (hpar : Q.nrm = P.nrm ∨ Q.nrm = P.nrm.neg) (hoff : P.pos.dot P.nrm = Q.pos.dot P.nrm) (c r : Int) :
+    ∃ v p, pixToRef P.posL P.oriL P.ps c r = .ok v ∧ refToPix Q.posL Q.oriL Q.ps 1 v = .ok p ∧ p.z = 0 := by
+  obtain ⟨v, hv, _⟩ := ref_to_pixel_left_inverse P hP one_ne_zero c r
+  obtain ⟨p, hp, hfw⟩ := ref_to_pixel_right_inverse Q hQ one_ne_zero v
+  refine ⟨v, p, hv, hp, ?_⟩
+  -- v = (P.fwd 1)(c, r, 0): its component along the normal of P is that of P.pos
+  have hvP : v = (P.fwd 1).apply ⟨(c : Rat), (r : Rat), 0⟩ := by
+    have := hv
+    simp only [pixToRef, pixToRefAffine_eval P hP.hr hP.hc, bind, Except.bind, pure, Except.pure, Except.ok.injEq] at this
+    exact this.symm
+  have h1 : P.nrm.dot v = P.nrm.dot P.pos := by
+    rw [hvP, nrm_dot_fwd]; ring
+  have h2 : Q.nrm.dot v = Q.nrm.dot Q.pos + p.z * 1 * Q.nrm.dot Q.nrm := by
+    rw [← hfw, nrm_dot_fwd]
+  have hQn : Q.nrm.dot Q.nrm ≠ 0 := V3.dot_self_ne_zero hQ.hn
+  have hcomm : ∀ a b : V3, a.dot b = b.dot a := by
+    intro a b; cases a; cases b; simp only [V3.dot]; ring
+  have hneg : ∀ a b : V3, a.neg.dot b = -(a.dot b) := by
+    intro a b; cases a; cases b; simp only [V3.dot, V3.neg]; ring
+  have key : p.z * Q.nrm.dot Q.nrm = 0 := by
+    rcases hpar with e | e
+    · rw [e] at h2 ⊢
+      rw [hcomm P.pos P.nrm, hcomm Q.pos P.nrm] at hoff
+      linarith
+    · rw [e] at h2 ⊢
+      rw [hcomm P.pos P.nrm, hcomm Q.pos P.nrm] at hoff
+      rw [hneg, hneg, hneg] at h2
+      rw [hneg]
+      have hnn : P.nrm.dot P.nrm.neg = -(P.nrm.dot P.nrm) := by rw [hcomm, hneg]
+      rw [hnn] at h2 ⊢
+      linarith
+  rcases mul_eq_zero.mp key with h | h
+  · exact h
+  · exact absurd h hQn
+
 /-! ## affines built from attributes: orthogonal axes, lengths, handedness, origin -/
 
 /-- **orthogonal axes, lengths = the given spacings, requested handedness** — `create_rotation_matrix`
